@@ -97,7 +97,9 @@ func outputTupleDir(v rel.Value, dir string, fs afero.Fs, dryRun bool) error {
 				return err
 			}
 		}
-	} else if err == nil && !fi.IsDir() {
+	} else if err != nil {
+		return err
+	} else if !fi.IsDir() {
 		return fmt.Errorf("%s exists and is not a directory", dir)
 	}
 
@@ -146,7 +148,7 @@ func outputTupleDir(v rel.Value, dir string, fs afero.Fs, dryRun bool) error {
 	return nil
 }
 
-func outputFile(content rel.Value, path string, fs afero.Fs, dryRun bool) error {
+func outputFile(content rel.Value, path string, fs afero.Fs, dryRun bool) (err error) {
 	var bytes []byte
 	switch content := content.(type) {
 	case rel.Bytes:
@@ -162,6 +164,8 @@ func outputFile(content rel.Value, path string, fs afero.Fs, dryRun bool) error 
 
 	if fi, err := fs.Stat(path); err == nil && fi.IsDir() {
 		return fmt.Errorf("%s exists and is a directory", path)
+	} else if err != nil && !os.IsNotExist(err) {
+		return err
 	}
 
 	if dryRun {
@@ -172,7 +176,12 @@ func outputFile(content rel.Value, path string, fs afero.Fs, dryRun bool) error 
 	if err != nil {
 		return err
 	}
-	defer f.Close()
+	defer func() {
+		// a failing close can be the only report of a lost write
+		if cerr := f.Close(); err == nil {
+			err = cerr
+		}
+	}()
 
 	if _, err = f.Write(bytes); err != nil {
 		return err
